@@ -245,7 +245,7 @@ impl CallStack {
 
     pub fn push_thread(&mut self) {
         let mut new_thread = self.get_current_thread().clone();
-        self.thread_counter += 1;
+        self.thread_counter = self.thread_counter.wrapping_add(1);
         new_thread.thread_index = self.thread_counter;
         self.threads.push(new_thread);
     }
@@ -312,7 +312,7 @@ impl CallStack {
 
     pub fn fork_thread(&mut self) -> Thread {
         let mut forked_thread = self.get_current_thread().clone();
-        self.thread_counter += 1;
+        self.thread_counter = self.thread_counter.wrapping_add(1);
         forked_thread.thread_index = self.thread_counter;
         forked_thread
     }
